@@ -26,15 +26,25 @@ def norm(n):
     return n
 
 
-def signature(F, b):
-    """callee multiset (crate-local canonical names, foreign short names), byte constants and closure signatures."""
+def signature(F, b, _seen=None):
+    """callee multiset (crate-local canonical names, foreign short names), byte constants and closure signatures.
+    Calls to private helpers of the same file are looked through (their calls and constants count as the caller's), so that
+    extracting a helper does not change the signature."""
     calls = Counter()
     consts = Counter()
+    seen = _seen if _seen is not None else {b.path}
     for body in F.with_closures(b):
         for c in body.calls:
             n = c.name if c.local and c.name in F.bodies else (c.fn or c.name)
             if c.local and c.name in F.bodies:
-                n = F.canon_of(F.bodies[c.name])
+                cb = F.bodies[c.name]
+                if cb.vis.startswith("Restricted") and cb.file == b.file and cb.path not in seen and len(seen) < 6:
+                    seen.add(cb.path)
+                    c2, k2 = signature(F, cb, seen)
+                    calls += c2
+                    consts += k2
+                    continue
+                n = F.canon_of(cb)
             n = re.sub(r"\{closure#\d+\}", "{closure}", n)
             if re.search(r"ops::Try|FromResidual|ops::Deref|IntoIterator|Iterator::next|clone::Clone|drop_in_place", n):
                 continue
@@ -160,8 +170,15 @@ def run(ctx):
         b = F.fn(fn)
         o = lib.local_calls(F, b, "PasswordAlgorithm::authenticate_owner_password")
         u = lib.local_calls(F, b, "PasswordAlgorithm::authenticate_user_password")
-        orr = [c for c in b.calls if re.search(r"result::Result::<.*>::or$", c.fn or "")]
-        ok = len(o) == 1 and len(u) == 1 and len(orr) == 1 and lib.result_disposition(b, orr[0].dest["l"])[0] == "propagated"
+        # every Ok return is entered only on an edge on which the owner or the user authentication (or their `.or`
+        # combination) was found Ok; both outcomes are consulted on some such edge
+        ok = False
+        if len(o) == 1 and len(u) == 1 and not o[0].dest["p"] and not u[0].dest["p"]:
+            lo, lu = o[0].dest["l"], u[0].dest["l"]
+            se = [(org, x) for org, x in lib.success_edges(b) if org & {lo, lu}]
+            rets = [bi for bi, _s in lib.blocks_assigning_ret_variant(b, "Ok")]
+            covered = all(any(x == r or b.dominates(x, r) for _org, x in se) for r in rets)
+            ok = bool(rets) and covered and any(lo in org for org, _x in se) and any(lu in org for org, _x in se)
         ctx.ob("R-ORDER", "both-passwords|%s" % fn, ok, "owner and user authentication are both tried and the combined result is propagated", b.where(),
                what="%s no longer accepts both the owner and the user password (or ignores the outcome)" % fn)
     # 5b. revisions 2-4: the file key is a function of the *user* password
